@@ -1084,3 +1084,38 @@ Proof.
   rewrite <- (sort_npm_latest_on_list (v_cfg var) O vs pre y post Hb Hy Hpost).
   symmetry. eapply versions_npm_fixpoint; eauto.
 Qed.
+
+(* the requirement list returned does not remember the order in which it was given *)
+Lemma requirements_order_insensitive O var ops1 ops2 k v1 d1 v2 d2 :
+  last_add ops1 k = Some (v1, d1) -> last_add ops2 k = Some (v2, d2) ->
+  Forall (fun d => r_sys d = sys_npm) d1 -> deps_separated d1 -> Permutation d1 d2 ->
+  requirements_of (run O var ops1) k = requirements_of (run O var ops2) k.
+Proof.
+  intros H1 H2 Hs Sep Hp. rewrite !run_requirements_of, H1, H2.
+  rewrite (sort_deps_perm_unique d1 d2 Hs Sep Hp). reflexivity.
+Qed.
+
+Local Open Scope N_scope.
+Definition mk_dep (name : bytes) (ty : list (Z * bytes)) : reqver :=
+  {| r_key := {| vk_pkg := {| pk_sys := sys_npm; pk_name := name |}; vk_type := vt_requirement; vk_ver := [42] |};
+     r_type := vset_of_pairs ty |}.
+Definition e_d1 : reqver := mk_dep [102;111;111;95;98;97;114] [].           (* foo_bar *)
+Definition e_d2 : reqver := mk_dep [102;111;111;98;97;114] [].              (* foobar *)
+Definition e_d3 : reqver := mk_dep [65] [(dep_dev, [])].                    (* A, development only *)
+Definition e_t1 : reqver := mk_dep [120] [].                                (* x *)
+Definition e_t2 : reqver := mk_dep [98] [(dep_knownas, [120])].             (* b known as x *)
+
+Lemma deps_order_example :
+  deps_separated [e_d3; e_d2; e_d1] /\
+  sort_deps [e_d3; e_d2; e_d1] = [e_d1; e_d2; e_d3] /\ sort_deps [e_d2; e_d1; e_d3] = [e_d1; e_d2; e_d3].
+Proof.
+  split; [|split; reflexivity].
+  intros a b Ha Hb _ Hn. simpl in Ha, Hb.
+  destruct Ha as [<-|[<-|[<-|[]]]], Hb as [<-|[<-|[<-|[]]]]; auto; vm_compute in Hn; discriminate.
+Qed.
+
+(* two requirements shown under one name are not separated: their order is the order given *)
+Lemma deps_ties_witness :
+  dep_cmp e_t1 e_t2 = 0%Z /\ e_t1 <> e_t2 /\
+  sort_deps [e_t1; e_t2] = [e_t1; e_t2] /\ sort_deps [e_t2; e_t1] = [e_t2; e_t1].
+Proof. repeat split. discriminate. Qed.
